@@ -25,36 +25,39 @@ META = {
 
 # ------------------------------------------------------------------ reference of the protocol (history generator + oracle)
 class Ref:
-    """What openraft guarantees about the call sequence, and what must be on disk after each call."""
+    """What openraft guarantees about the call sequence (Raft/ProofsRecover.v wf_op), and what must be on disk after each call.
+    The committed log G has indices 0..n-1; cnt(logid) = index + 1 = number of entries covered."""
 
     def __init__(self, G):
-        self.G = G                      # committed entries, G[i-1] has index i
+        self.G = G
         self.log = {}                   # index -> entry
         self.purged = None              # logid
         self.vote = None
         self.applied = None             # logid
-        self.snap = None                # logid of the last built/installed snapshot ("none" before any)
+        self.snap = None                # logid of the last built/installed snapshot
         self.has_snap = False
 
-    def idx(self, l):
-        return 0 if l is None else l[2]
+    @staticmethod
+    def cnt(l):
+        return 0 if l is None else l[2] + 1
 
-    def last(self):
-        return max(self.log) if self.log else self.idx(self.purged)
+    def next_index(self):
+        return max(self.log) + 1 if self.log else self.cnt(self.purged)
 
     def ok(self, op):
         """precondition of the call under the openraft protocol"""
         k = op[0]
-        a = self.idx(self.applied)
+        a = self.cnt(self.applied)
         if k in ("vote", "build"):
             return True
         if k == "append":
-            nxt = self.last() + 1
-            return bool(op[1]) and [e[0][2] for e in op[1]] == list(range(nxt, nxt + len(op[1]))) and nxt > a and self.last() >= self.idx(self.snap)
+            nxt = self.next_index()
+            return (bool(op[1]) and [e[0][2] for e in op[1]] == list(range(nxt, nxt + len(op[1]))) and nxt >= a
+                    and nxt >= self.cnt(self.snap))
         if k == "delete":
-            return op[1][2] > a
+            return op[1][2] >= a
         if k == "purge":
-            return self.has_snap and self.idx(self.purged) < op[1][2] <= self.idx(self.snap)
+            return self.has_snap and self.cnt(self.purged) <= op[1][2] < self.cnt(self.snap)
         if k == "apply":
             es = op[1]
             return bool(es) and es == self.G[a:a + len(es)] and all(self.log.get(e[0][2]) == e for e in es)
@@ -90,23 +93,23 @@ class Ref:
 
 def gen_history(rng, maxops):
     n = rng.range(3, 9)
-    G = R.gen_log(rng, n)
+    G = R.gen_log(rng, n, start=0)
     ref = Ref(G)
     ops = []
     diverged = None                      # first index holding an uncommitted entry of a deposed leader
     tries = 0
-    while len(ops) < maxops and tries < 200:
+    while len(ops) < maxops and tries < 300:
         tries += 1
         k = rng.below(16)
-        a = ref.idx(ref.applied)
+        a = ref.cnt(ref.applied)
         op = None
         if k <= 4:
-            nxt = ref.last() + 1
+            nxt = ref.next_index()
             cnt = rng.range(1, 3)
             es = []
             for j in range(nxt, nxt + cnt):
-                if diverged is None and j <= n and not rng.chance(1, 6):
-                    es.append(G[j - 1])
+                if diverged is None and j < n and not rng.chance(1, 6):
+                    es.append(G[j])
                 else:
                     if diverged is None:
                         diverged = j
@@ -115,12 +118,12 @@ def gen_history(rng, maxops):
         elif k == 5:
             if diverged is not None:
                 op = ("delete", ref.log[diverged][0] if diverged in ref.log else (1, 1, diverged))
-            elif ref.last() > a and rng.chance(1, 2):
-                j = rng.range(a + 1, ref.last())
+            elif ref.next_index() > a and rng.chance(1, 2):
+                j = rng.range(a, ref.next_index() - 1)
                 op = ("delete", ref.log[j][0] if j in ref.log else (1, 1, j))
         elif k <= 8:
             avail = 0
-            while a + avail < n and ref.log.get(a + avail + 1) == G[a + avail]:
+            while a + avail < n and ref.log.get(a + avail) == G[a + avail]:
                 avail += 1
             if avail:
                 op = ("apply", G[a:a + rng.range(1, avail)])
@@ -130,10 +133,10 @@ def gen_history(rng, maxops):
             if a < n:
                 op = ("install", G[:rng.range(a + 1, n)])
         elif k <= 14:
-            lo, hi = ref.idx(ref.purged), ref.idx(ref.snap)
+            lo, hi = ref.cnt(ref.purged), ref.cnt(ref.snap)
             if ref.has_snap and hi > lo:
-                p = rng.choice([hi, rng.range(lo + 1, hi)])
-                op = ("purge", G[p - 1][0])
+                p = rng.choice([hi - 1, rng.range(lo, hi - 1)])
+                op = ("purge", G[p][0])
         else:
             op = ("vote", (rng.below(6), rng.range(1, 3), rng.chance(1, 2)))
         if op is None or not ref.ok(op):
@@ -211,7 +214,7 @@ CORPUS = None
 
 def corpus(rng):
     """the histories that failed on the unchanged tree"""
-    G = R.gen_log(rng, 4)
+    G = R.gen_log(rng, 4, start=0)
     return [(G, [("append", G[:3]), ("apply", G[:3]), ("build",), ("purge", G[2][0])]),          # state applied before a purge
             (G, [("append", G[:3]), ("apply", G[:2]), ("build",), ("purge", G[1][0]), ("apply", G[2:3])]),
             (G, [("append", G[:1]), ("install", G[:3]), ("purge", G[2][0]), ("append", G[3:4]), ("apply", G[3:4])]),   # installed snapshot
@@ -236,22 +239,19 @@ def check(run):
     if binpath is None:
         return
     rng = run.rng
-    nh = 45 if run.tier == "quick" else 500
-    hists = corpus(rng) + [gen_history(rng, 6 if i % 3 == 0 else 10) for i in range(nh)]
+    nh = 22 if run.tier == "quick" else 400
+    hists = corpus(rng) + [gen_history(rng, 5 + i % 5) for i in range(nh)]
     for G, ops in hists:
         assert wf(G, ops), "generator produced a non-conforming history"
     # pass 1: count writes
     base = run_parallel(binpath, [crash_req(G, ops, 0) for G, ops in hists])
     reqs, meta = [], []
     for hi, ((G, ops), b) in enumerate(zip(hists, base)):
-        reqs.append(crash_req(G, ops, 0))
-        meta.append((hi, 0))
-        if "writes" not in b:
-            continue
-        for k in range(1, b["writes"] + 1):
+        for k in range(1, b.get("writes", 0) + 1):
             reqs.append(crash_req(G, ops, k))
             meta.append((hi, k))
-    answers = run_parallel(binpath, reqs)
+    answers = base + run_parallel(binpath, reqs)
+    meta = [(hi, 0) for hi in range(len(hists))] + meta
     # model: one write per call
     exprs, has_model = [], []
     for (hi, k), ans in zip(meta, answers):
